@@ -100,6 +100,9 @@ type (
 		// Callbacks to destroy subs
 		subs   []func()
 		subsMu sync.Mutex
+
+		// See `destroy`.
+		destroyMu sync.Mutex
 	}
 )
 
@@ -298,6 +301,11 @@ func (m *Manager) closePacketQueue(pq *packetQueue) {
 }
 
 func (m *Manager) destroy(_ *clientSocket) {
+	// `ClientSocket.Connect` holds this mutex too. Without it, a socket could become active (and
+	// connect) after it was found to be inactive here, and be closed by the `Close` below.
+	m.destroyMu.Lock()
+	defer m.destroyMu.Unlock()
+
 	for _, socket := range m.sockets.getAll() {
 		if socket.Active() {
 			m.debug.Log("Socket (nsp: `" + socket.namespace + "`) is still active, skipping close")
